@@ -1,4 +1,8 @@
 import Driver.Util
+import Driver.Misc.Bins
+import Driver.Misc.MemBal
+import Driver.Misc.Xducer
+import Driver.Misc.Opts
 /-! package `Misc` (see CONVENTIONS.md): register components in `step`.
 `cfg` lines this package cares about may be matched here too (they must answer "ok");
 every package sees every `cfg` line. -/
@@ -7,16 +11,27 @@ open Driver
 
 structure St where
   debug : Bool := true
+  membal : MemBal.DState := none
+  opts : Opts.DState := {}
 
 /-- `none` = not a component of this package. -/
 def step (st : St) (toks : List String) : Option (St × String) :=
   match toks with
+  | "bins" :: args => some (st, Bins.run st.debug args)
+  | "opts" :: args =>
+    let (o, out) := Opts.run st.opts args
+    some ({ st with opts := o }, out)
+  | "xducer" :: args => some (st, Xducer.run args)
+  | "membal" :: args =>
+    let (m, o) := MemBal.run st.debug st.membal args
+    some ({ st with membal := m }, o)
   | _ => none
 
 /-- `cfg` lines are broadcast to every package. -/
 def cfg (st : St) (toks : List String) : St :=
   match toks with
   | ["debug", v] => { st with debug := v == "1" }
+  | "opts_env" :: _ => { st with opts := Opts.cfg st.opts toks }
   | _ => st
 
 end Driver.Misc
